@@ -62,6 +62,10 @@ def plan(tier, seed):
         chunks.append({"key": f"ak/all/{first:02x}", "kind": "ak_all", "first": first, "cost": 5 ** b["artifact_len"]})
     chunks.append({"key": "ak/short", "kind": "ak_short", "cost": 10})
     chunks.append({"key": "ak/constructed", "kind": "ak_constructed", "cost": 20000})
+    for lo in range(0, 1200, 100):
+        chunks.append({"key": f"ak/offsets/{lo}", "kind": "ak_offsets", "lo": lo, "hi": lo + 100, "cost": 6000})
+    for lo in (4070, 65500, 70130):
+        chunks.append({"key": f"ak/offsets/{lo}", "kind": "ak_offsets", "lo": lo, "hi": lo + 40, "cost": 3000})
     return chunks
 
 
@@ -330,6 +334,22 @@ def chunk_ak_constructed(chunk, acc):
     acc.sample({"header_at": 5, "size": 4, "key": "01020304", "layout": "filler | u32(off+16) u32(size) key hints[8] payload"})
 
 
+def chunk_ak_offsets(chunk, acc):
+    """One header at every offset of a window (all low-byte values, with the carries of off+16 into the second and
+    third byte), found from the start of the file and from a start offset just in front of it."""
+    body = lcg(24, acc.seed + 12)
+    key = b"\x01\x02\x03\x04"
+    for p1 in range(chunk["lo"], chunk["hi"]):
+        hdr = struct.pack("<II", p1 + 16, 5) + key + b"HINTHINT"
+        data = b"\xee" * p1 + hdr + body
+        acc.states += 1
+        if p1 <= 1200:
+            ak_judge(acc, data, 0, 0, None)
+        ak_judge(acc, data, max(p1 - 3, 0), 0, None)
+        ak_judge(acc, data, max(p1 - 3, 0), 0, p1)
+    acc.sample({"header_at": f"{chunk['lo']}..{chunk['hi'] - 1}", "size": 5, "key": "01020304"})
+
+
 def run_chunk(chunk, acc):
     kind = chunk["kind"]
     if kind == "needle":
@@ -346,6 +366,8 @@ def run_chunk(chunk, acc):
         chunk_ak_short(chunk, acc)
     elif kind == "ak_constructed":
         chunk_ak_constructed(chunk, acc)
+    elif kind == "ak_offsets":
+        chunk_ak_offsets(chunk, acc)
     else:
         raise ValueError(kind)
 
